@@ -65,7 +65,7 @@ def expected_members(shape: Shape) -> List[List[int]]:
     return out
 
 
-def render(shape: Shape, names: Sequence[str], abstract: Sequence[bool], wmt: Sequence[Optional[bool]],
+def render(shape: Shape, names: Sequence[str], abstract: Sequence[bool], wmt: Sequence[Any],
            methods: bool = True) -> str:
     members = expected_members(shape)
     blocks = []
@@ -73,7 +73,9 @@ def render(shape: Shape, names: Sequence[str], abstract: Sequence[bool], wmt: Se
         lines = []
         if abstract[k]:
             lines.append("@abstract")
-        if wmt[k] is not None:
+        if wmt[k] == "bare":
+            lines.append("@serialization()")  # a setting object without a value: inherited like no decorator
+        elif wmt[k] is not None:
             lines.append(f"@serialization(with_model_type={wmt[k]})")
         lines.append(f'@invariant(lambda self: self.p_{names[k].lower()} > 0, "{names[k]} positive")')
         bases = "".join(f"{names[p]}, " for p in parents)
@@ -111,7 +113,7 @@ def translate(text: str) -> Tuple[Optional[intermediate.SymbolTable], str]:
 
 
 def judge(st: intermediate.SymbolTable, shape: Shape, names: Sequence[str], abstract: Sequence[bool],
-          wmt: Sequence[Optional[bool]], methods: bool = True) -> Optional[Tuple[str, str]]:
+          wmt: Sequence[Any], methods: bool = True) -> Optional[Tuple[str, str]]:
     """(clause, observation) of the first clause of C05 that the symbol table breaks."""
     anc = closure(shape)
     members = expected_members(shape)
@@ -189,14 +191,19 @@ def judge(st: intermediate.SymbolTable, shape: Shape, names: Sequence[str], abst
     return None
 
 
-def wmt_settings(shape: Shape) -> List[List[Optional[bool]]]:
+def wmt_settings(shape: Shape) -> List[List[Any]]:
     n = len(shape)
-    out: List[List[Optional[bool]]] = [[None] * n, [True if not shape[k] else None for k in range(n)]]
+    out: List[List[Any]] = [[None] * n, [True if not shape[k] else None for k in range(n)]]
     for k in range(n):
-        one: List[Optional[bool]] = [None] * n
+        one: List[Any] = [None] * n
         one[k] = True
         if one not in out:
             out.append(one)
+    for k in range(n):
+        if shape[k]:
+            bare = list(out[1])
+            bare[k] = "bare"  # type: ignore
+            out.append(bare)
     if n > 1 and shape[n - 1]:
         contradicting = list(out[1])
         contradicting[n - 1] = False
@@ -232,7 +239,7 @@ def primitive_chains(depth: int) -> List[Dict[str, Any]]:
     return failures
 
 
-def variants(shape: Shape, full: bool) -> List[Tuple[Tuple[bool, ...], int, List[Optional[bool]], bool]]:
+def variants(shape: Shape, full: bool) -> List[Tuple[Tuple[bool, ...], int, List[Any], bool]]:
     n = len(shape)
     if full:
         abstracts = list(itertools.product([False, True], repeat=n))
